@@ -275,23 +275,25 @@ def h_stats(ctx, kinds, parts, order, ctag=''):
 
 def obligations(tier):
   thorough = tier != 'quick'
-  pc = [dict(ninit=a, nnotes=b) for a in (0, 1, 2) for b in ((0, 1, 2) if not thorough else (0, 1, 2, 3)) if a + b <= len(NAMES)]
+  pc = [dict(ninit=a, nnotes=b) for a in (0, 1, 2) for b in ((0, 1, 2, 3) if not thorough else (0, 1, 2, 3, 4)) if a + b <= len(NAMES) and (thorough or a + b <= 4)]
   st = []
   multi = ['flow', 'table', 'port', 'queue']
   orders = {(1, 1): ['12', '1b2', 'e12'], (2, 1): ['112', '1b12', '1e1b2'], (2, 2): ['1122', '11b22', '1e12e2'.replace('e12e2', 'e122')],
-            (3, 1): ['1112', '11b12'], (3, 2): ['11122', '1b11e22'], (1, 3): ['1222', '12b22'], (3, 3): ['111222']}
+            (3, 1): ['1112', '11b12'], (3, 2): ['11122', '1b11e22'], (1, 3): ['1222', '12b22'], (3, 3): ['111222'],
+            (4, 2): ['111122'], (6, 1): ['1111112', '111b111e2'], (5, 6): ['11111222222']}
   for i, k1 in enumerate(multi):
     k2 = multi[(i + 1) % 4]
     for (n1, n2), os_ in orders.items():
-      if not thorough and (n1, n2) in ((3, 3), (1, 3)) and i: continue
+      if not thorough and (n1, n2) in ((3, 3), (1, 3), (4, 2), (6, 1)) and i: continue
+      if (n1, n2) == (5, 6) and (i or not thorough): continue
       for o in os_:
         st.append(dict(kinds=(k1, k2), parts=(n1, n2), order=o))
     st.append(dict(kinds=(k1, k1), parts=(2, 2), order='1b122'))         # same type, xids may alias
   for k in ('desc', 'aggregate'):
     st.append(dict(kinds=(k, 'flow'), parts=(1, 2), order='1b2e2'))
     st.append(dict(kinds=('port', k), parts=(3, 1), order='11e12'))
-  BOUNDS[tier] = dict(ports="0..2 initial ports, 0..%d notifications, 16-bit port numbers and 48-bit MACs symbolic (all aliasing patterns), reason symbolic" % (3 if thorough else 2),
-                      stats="two requests (contiguous part sequences), 1..3 parts each, all 4 multipart types + desc/aggregate, barrier/echo interleaved, xids symbolic")
+  BOUNDS[tier] = dict(ports="0..2 initial ports, 0..%d notifications, 16-bit port numbers and 48-bit MACs symbolic (all aliasing patterns), reason symbolic" % (4 if thorough else 3),
+                      stats="two requests (contiguous part sequences), 1..3 parts each (flow/table also 4 and 6 parts; thorough 5 + 6), all 4 multipart types + desc/aggregate, barrier/echo interleaved, xids symbolic")
   pc = pc + [dict(ninit=2, nnotes=1, refresh='same'), dict(ninit=1, nnotes=1, refresh='other')] + ([dict(ninit=2, nnotes=2, refresh='same'), dict(ninit=2, nnotes=1, refresh='other')] if thorough else [])
   return [
     Obligation('O1_ports', h_ports, pc, witnesses=('done', 'add', 'replace', 'delete-hit', 'delete-miss', 'refreshed'), max_decisions=20000,
